@@ -866,6 +866,14 @@ def eval_split(rp):
     init = mm.make_init(rng, K, N, lead, ['positive', 'dirichlet', 'onehot'][int(rng.integers(0, 3))])
     opts = mm.sample_options(rng, 'cacgmm', K, N, lead, with_aligner=bool(rng.random() < 0.3))
     opts['affiliation_eps'] = float(rng.choice([0.0, 1e-10, 1e-3, 1e-2, 1e-2]))      # the clip must bind in some cases
+    if n > 20:
+        # iteration counts beyond convergence: well separated data, a start near the truth, plain options - EM has
+        # numerically converged long before iteration n, and continuing a converged fit must still be the same fit
+        K, D, N, lead = 2, 3, 60, ()
+        data = mm.make_data(rng, 'cacgmm', K, D, N, lead, separation=8.0)
+        y = data['y']
+        init = 0.85 * np.eye(K)[np.asarray(data['labels'])].T + 0.15 / K
+        opts = {'weight_constant_axis': (-1,)}
     if 'inline_permutation_aligner' in opts and lead[0] % 2 == 0:
         opts.pop('inline_permutation_aligner')
     for a in (y, init):
@@ -1052,7 +1060,7 @@ def cases(rng, tier):
             if cls in ('CBMMTrainer',) and rep >= (2 if q else 12):
                 continue
             out.append(case_history(cls, rng.integers(0, 2 ** 31)))
-    for n in ([2, 3, 3, 4, 4, 5, 5, 6, 6, 6] if q else [2, 3, 4, 5, 6, 6] * 5 + [7, 8, 9, 10, 11, 12, 13, 14, 15, 16, 17, 18, 19, 20, 20]):
+    for n in ([2, 3, 3, 4, 4, 5, 5, 6, 6, 6, 24, 30, 36] if q else [2, 3, 4, 5, 6, 6] * 5 + [7, 8, 9, 10, 11, 12, 13, 14, 15, 16, 17, 18, 19, 20, 20, 24, 30, 36, 40, 48]):
         out.append(case_split(n, rng.integers(0, 2 ** 31)))
     for rep in range(2 if q else 12):
         for name in mm.MODELS:
